@@ -722,6 +722,18 @@ func checkAndPropagateArgsForUnionWithReturnT(
 
 	for idx, class := range classNames {
 		err = checkAndPropagateArgs(m, class, methodTs[idx], evalutedArgs)
+
+		// the other declarations of an overloaded method, as for a plain receiver
+		if err != nil && methodTs[idx].HasOverloads() {
+			for _, overloadT := range methodTs[idx].Overloads {
+				err = checkAndPropagateArgs(m, class, &overloadT, evalutedArgs)
+				if err == nil {
+					methodTs[idx] = &overloadT
+					break
+				}
+			}
+		}
+
 		if err != nil {
 			return nil, err
 		}
